@@ -47,9 +47,9 @@ ASSUMPTIONS = [
     "random leaves are opaque: only reproducibility per seed, range and length "
     "are judged"]
 MIN_COUNTERS = {
-    'quick': {'sequences_compared': 20000, 'interleaved_pairs_compared': 20000,
-              'snapshots_compared': 20000, 'values_compared': 200000,
-              'random_leaf_runs': 1000, 'infinite_expressions': 2000},
+    'quick': {'sequences_compared': 8000, 'interleaved_pairs_compared': 8000,
+              'snapshots_compared': 8000, 'values_compared': 80000,
+              'random_leaf_runs': 400, 'infinite_expressions': 800},
     'thorough': {'sequences_compared': 500000,
                  'interleaved_pairs_compared': 500000,
                  'snapshots_compared': 500000, 'values_compared': 5000000,
@@ -60,7 +60,7 @@ N = 64
 
 
 def plan(tier, seed):
-    total = 64000 if tier == 'quick' else 3_000_000
+    total = 48000 if tier == 'quick' else 3_000_000
     parts = 16
     secs = 45 if tier == 'quick' else 600
     return [{'name': f'expr{p}', 'mode': 'nrt', 'kind': 'expr',
